@@ -654,7 +654,19 @@ def status(pid, tier, replay):
                 if step["printer"] != "pipe":
                     return None
                 step["printer"] = "h2"
+        # every third scenario: the manifest is regenerated by a generator statement right before the build (one more ninja pass)
+        real_pipes.n += 1
+        if real_pipes.n % 3 == 0 and len(s["hist"]) == 1 and not s["hist"][0].get("fail"):
+            k = len(s["stmts"]) + 1
+            st0 = dict(s["stmts"][0])
+            st0.update(id=k, outs=["build.ninja"], iouts=[], ex=["gs"], im=[], oo=[], val=[], hdrs=[], phony=False, restat=False, gen=True, rsp=False,
+                       deps="", pool="", dd="", ddi=[], ddo=[], ddr=False, mkdd="", outp=[])
+            s["stmts"].append(st0)
+            s["srcs"] = list(s["srcs"]) + ["gs"]
+            h = s["hist"][0]
+            s["hist"] = [dict(h, printer=""), {"op": "touch", "f": "gs"}, {"op": "touch", "f": s["srcs"][0]}, h]
         return s
+    real_pipes.n = 0
     h2 = dict(fams=[dict(fam="status", K=2 if tier == "quick" else 12, CH=2 if tier == "quick" else 6, mut=real_pipes)], limit=80 if tier == "quick" else 1200, maxruns=2)
     return engine.engine_check(pid, fams, tier, maxruns=16 if tier == "quick" else 100, props=["C20"], stream=True, h2=h2,
                                extra_cov={"stream_rule": "family status: every Status call of the real StatusPrinter/LinePrinter with the bytes it wrote to a captured stdout "
